@@ -36,17 +36,39 @@ def expected_states(case, frac=None, fraction=1.0, band=DELTA, radii=None):
     return out.reshape(T, N), via_image
 
 
-def full_trajectory(case, specie='Li', species_kind='Species'):
+def atom_layout(case, specie='Li'):
+    """(symbols, coords (T, N, 3), columns of the diffusers) of the full trajectory.  Diffusers come first and framework atoms
+    after them unless the case carries a 'merge' list: then the two groups are interleaved in that generated order (the relative
+    order inside each group is kept, so column k of the site states is still diffuser k)."""
     diff = np.array(case['diff'], float)
     T, Nd, _ = diff.shape
-    symbols = [specie] * Nd
     if case.get('diff_shift') is not None:
         diff = diff + np.array(case['diff_shift'], float)  # coordinates given in other periodic images
-    coords = diff
     fw = case.get('framework')
-    if fw:
-        coords = np.concatenate([diff, np.array(fw['coords'], float)], axis=1)
-        symbols = symbols + list(fw['symbols'])
+    if not fw:
+        return [specie] * Nd, diff, list(range(Nd))
+    fc = np.array(fw['coords'], float)
+    Nf = fc.shape[1]
+    order = [('d', i) for i in range(Nd)] + [('f', j) for j in range(Nf)]
+    if case.get('merge'):
+        picks = list(case['merge'])
+        order, i, j, k = [], 0, 0, 0
+        while i < Nd or j < Nf:
+            take_d = (picks[k % len(picks)] == 0) if (i < Nd and j < Nf) else i < Nd
+            k += 1
+            if take_d:
+                order.append(('d', i))
+                i += 1
+            else:
+                order.append(('f', j))
+                j += 1
+    symbols = [specie if g == 'd' else fw['symbols'][n] for g, n in order]
+    coords = np.stack([diff[:, n] if g == 'd' else fc[:, n] for g, n in order], axis=1)
+    return symbols, coords, [k for k, (g, _) in enumerate(order) if g == 'd']
+
+
+def full_trajectory(case, specie='Li', species_kind='Species'):
+    symbols, coords, _ = atom_layout(case, specie)
     return cases.trajectory(coords, symbols, case['lattice']['matrix'], case.get('time_step', 1e-15), case.get('temperature', 300.0), species_kind)
 
 
